@@ -6,7 +6,7 @@
    classify a datagram are total functions in the model (C16) and are run against the real parser
    for every length 0..80 and every first byte in every receiver state (py/props/c08.py); a panic
    of the real code shows up there as a `panic` result line the model does not produce. *)
-From VpnModel Require Import Base Core CoreProofs Conn PeerCrypto NodeInfo Table Node NodeProofs Dissect DissectProofs InitProofs InvProofs.
+From VpnModel Require Import Base Core CoreProofs Conn PeerCrypto NodeInfo Table Node NodeProofs Dissect DissectProofs InitProofs InvProofs TrustProofs NextHopProofs NoPanicProofs.
 
 (* at every stage of a connection object: ordinary error (never the Panic result), object unchanged, no reply *)
 Theorem C08_object_drops : forall ok p w, unverifiable w -> pc_plain p = false ->
@@ -60,6 +60,20 @@ Theorem C08_core_junk : forall c d,
   exists e, core_decrypt c d = (c, Err e).
 Proof. exact core_decrypt_junk. Qed.
 
+(* WHOLE RUNS: as long as everything that ever arrived was well-formed - wf_wire: ECDH public keys of 32 bytes, sealed messages non-empty; unverifiable bytes are (C08_outsider_is_wellformed), and so are verbatim replays of what honest nodes sent - the next datagram, from ANY source and handled by whichever connection or handshake object answers for that source, does not panic: no unwrap of a consumed key, no failed key agreement, no empty-buffer assertion, no index past an empty message.  Invariant QP of every node step: pending handshake objects keep their ECDH key while they wait for a pong (a fatal error deletes them in the same step), the handshake objects of established peers have completed and stay so *)
+Theorem C08_reachable_no_panic : forall salts c t0 evs src w pc, Forall (fun te => wf_event (snd te)) evs -> wf_wire w ->
+  answering_object salts (nrun salts (node_new c t0) evs) src pc ->
+  panics (snd (fst (pc_handle payload_ok pc w))) = false.
+Proof. exact reachable_no_panic. Qed.
+
+(* what a party without keys can fabricate is well-formed in that sense *)
+Theorem C08_outsider_is_wellformed : forall w, unverifiable w -> wf_wire w.
+Proof. exact unverifiable_wf. Qed.
+
+(* and the per-second housekeeping of a connection object has no panic result at all *)
+Theorem C08_housekeeping_never_panics : forall p, panics (snd (fst (pc_every_second p))) = false.
+Proof. exact every_second_never_panics. Qed.
+
 (* Ethernet dissection never panics *)
 Theorem C08_frame_never_panics : forall d, is_panic (frame_parse d) = false.
 Proof. exact frame_no_panic. Qed.
@@ -71,6 +85,10 @@ Proof. exact packet_no_panic. Qed.
 Example C08_ex : unverifiable (WData (DG 200 [0;0;0;0;0;0;1] Junk 40)) /\ unverifiable (WData (DShort 0)).
 Proof. split; exact I. Qed.
 
+(* the two handshake messages that lead to the example state of NextHopProofs are well-formed: the premise of C08_reachable_no_panic is satisfiable by a real exchange *)
+Example C08_ex_wf : Forall (fun te => wf_event (snd te)) ex_evs.
+Proof. exact ex_wf. Qed.
+
 Print Assumptions C08_object_drops.
 Print Assumptions C08_node_no_residue.
 Print Assumptions C08_node_sequence.
@@ -81,5 +99,8 @@ Print Assumptions C08_invariant_new.
 Print Assumptions C08_fatal_object_deleted.
 Print Assumptions C08_core_never_panics.
 Print Assumptions C08_core_junk.
+Print Assumptions C08_reachable_no_panic.
+Print Assumptions C08_outsider_is_wellformed.
+Print Assumptions C08_housekeeping_never_panics.
 Print Assumptions C08_frame_never_panics.
 Print Assumptions C08_packet_never_panics.
